@@ -119,6 +119,68 @@ def make(cfg):
     return fn, H.default_opts(tier)
 
 
+def make_ddp(cfg):
+    """The same resume differential with DDP (DTensor) state: every simulated rank saves and reloads its own state dict."""
+    T, stop = cfg["T"], cfg["stop"]
+    tier = cfg.get("tier", "quick")
+    world, G = cfg["world"], cfg["group"]
+
+    def fn():
+        import torch
+        from distributed_shampoo.shampoo_types import DDPShampooConfig
+        from checks.c06 import _patch_mesh_cache
+
+        _patch_mesh_cache()
+        grads = [[H.arr_var(f"g{k}p{i}", tuple(s)) for i, s in enumerate(cfg["params"])] for k in range(1, T + 1)]
+        dcfg = dict(cfg)
+        dcfg["distributed_config_factory"] = lambda run: DDPShampooConfig(num_trainers_per_group=G, communicate_params=cfg.get("communicate_params", False))
+        hp_shared = [None]
+        sim = torch.distributed.Sim(world)
+        info_box = [None]
+
+        def rank_fn(r):
+            A = H.OptRun(dcfg, hp=hp_shared[0])
+            if hp_shared[0] is None:
+                hp_shared[0] = A.hp
+            info = A._sig("resume-differs", layout="ddp")
+            info_box[0] = info
+            for k in range(stop):
+                A.set_grads([g.copy() for g in grads[k]])
+                A.impl_step()
+            sd = copy.deepcopy(A.opt.distributed_state_dict(key_to_param=iter(_named(A))))
+            B = H.OptRun(dcfg, init_values=[H.read(p) for p in A.params], hp=A.hp)
+            B.opt.load_distributed_state_dict(sd, key_to_param=iter(_named(B)))
+            for k in range(stop, T):
+                A.set_grads([g.copy() for g in grads[k]])
+                B.set_grads([g.copy() for g in grads[k]])
+                A.impl_step()
+                B.impl_step()
+                for pi, (pa, pb) in enumerate(zip(A.params, B.params)):
+                    a, b = H.read(pa), H.read(pb)
+                    for idx in (np.ndindex(*a.shape) if a.ndim else [()]):
+                        symx.prove_equal(f"rank {r}: resumed DDP run has the uninterrupted parameters (stop {stop}, step {k + 1}, param {pi}{list(idx)})", b[idx], a[idx], info)
+                sa, sb = _state_tensors(A), _state_tensors(B)
+                symx.prove(f"rank {r}: same set of state tensors after resume", [(p, n) for p, n, _ in sa] == [(p, n) for p, n, _ in sb], info)
+                for (pi, name, ta), (_, _, tb) in zip(sa, sb):
+                    a, b = H.read(ta), H.read(tb)
+                    if a.shape != b.shape:
+                        symx.prove(f"rank {r}: state tensor {name} keeps its local shape after resume", False, info)
+                    for idx in (np.ndindex(*a.shape) if a.ndim else [()]):
+                        symx.prove_equal(f"rank {r}: resumed DDP run has the uninterrupted state (stop {stop}, step {k + 1}, param {pi} {name}{list(idx)})", b[idx], a[idx], info)
+            return True
+
+        _, errors = sim.run(rank_fn)
+        for e in errors:
+            if isinstance(e, (symx.PathEnd, symx.Restart, symx.PathViolation, symx.HarnessError)):
+                raise e
+        bad = [e for e in errors if e is not None]
+        if bad:
+            symx.prove(f"a rank failed while saving / loading / resuming: {type(bad[0]).__name__}: {str(bad[0])[:160]}", False, info_box[0] or dict(cfg=cfg, signature=dict(kind="resume-differs")))
+        return "resumed-ddp"
+
+    return fn, H.default_opts(tier)
+
+
 def jobs_for(tier):
     jobs = []
     n = 0
@@ -147,6 +209,12 @@ def jobs_for(tier):
         cfg = c01.base_cfg(tier=tier, assume_generic=True, T=1, stop=1, mode="strict", nesterov=False, bias_corr=True, decoupled=True, pf=1, sps=1, **kw)
         jobs.append(dict(id=f"s{n}", module="checks.c09", factory="make", cfg=cfg))
         n += 1
+    # DDP (DTensor) state layout on the rank simulator
+    for stop in (1, 2):
+        cfg = c01.base_cfg(tier=tier, assume_generic=True, T=3, stop=stop, params=[(2, 4), (2,), (3,)], mpd=2, merge=False, graft="adam", nesterov=True, bias_corr=True,
+                           decoupled=True, pf=1, sps=2, world=2, group=2)
+        jobs.append(dict(id=f"d{n}", module="checks.c09", factory="make_ddp", cfg=cfg))
+        n += 1
     if tier == "thorough":
         add(4, params=[(2, 3)], mpd=2, merge=False, graft="adam", nesterov=True, bias_corr=True, decoupled=False, pf=2, sps=2, assume_generic=False)
         add(4, params=[(2, 2), (2,)], groups=[[0], [1]], mpd=2, merge=False, graft="adagrad", nesterov=False, bias_corr=True, decoupled=True, pf=1, sps=2, presence="symbolic")
@@ -165,11 +233,13 @@ def run(tier, seed, argv):
     rep.bounds = dict(jobs=len(jobs), stop_steps="every k in 0..T, T<=3 (quick) / 4 (thorough)", configs="Shampoo/SOAP, Adam/RMSprop/SGD/no grafting, momentum, filtering, two groups, blocked parameters, a block without Kronecker factors",
                       strictness="solver-chosen index: each flat entry removed, each parameter renamed, group key changed")
     rep.assumptions = ["real arithmetic; bit patterns and torch.save serialisation are outside the claim", "generic equality regime of the hyperparameters (thorough adds all regimes for one configuration)",
-                       "serial (non-DTensor) state layout; the DDP layout is exercised by C06's simulator"]
+                       "DDP (DTensor) state layout: world 2 on the rank simulator; other distributed layouts are not resumed"]
     rep.validate_standin(6 if tier == "quick" else 24)
     rep.absorb("resume", par.run_jobs(jobs, chunk=6))
     return rep.finish("checks.c09")
 
 
 def replay(record):
+    if ((record.get("info") or {}).get("signature") or {}).get("layout") == "ddp":
+        return False, "DDP resume counterexamples have no real-backend replay yet (inconclusive)"
     return H.replay_record(record, make)
